@@ -1,0 +1,11 @@
+//go:build !verif
+
+package vm
+
+import "github.com/risor-io/risor/op"
+
+const verifOn = false
+
+var VerifStep func(vm *VirtualMachine, fp, ip int, opcode op.Code, sp int)
+
+var VerifEvent func(ev string, vm *VirtualMachine, a int64, other *VirtualMachine)
